@@ -8,7 +8,7 @@ from props import rsess
 from simkit import driver, gen, rw, tree
 from simkit.device import SimFS, SimRaw
 from simkit.prng import Rng
-from simkit.sched import Deadlock, Scheduler, SchedTime, SimKill, make_queue_module, make_thread_class
+from simkit.sched import Deadlock, FsYield, Scheduler, SchedTime, SimKill, make_queue_module, make_thread_class
 from simkit.seams import Seams, digest_of, import_py7zr
 
 import ref7z
@@ -101,7 +101,11 @@ def _run_threads(py7zr, image, strat, sink, outdir, fail_name, nsessions=1):
 
     extra = [(P, "Thread", make_thread_class(sched)), (P, "queue", make_queue_module(sched)), (P, "time", SchedTime(sched))]
     results = []
-    with Seams(fs=fs, extra=extra):
+    import contextlib
+
+    # extraction to a directory: every filesystem call of a worker is a scheduling point too
+    fsy = FsYield(sched, outdir) if (outdir and sink != "factory") else contextlib.nullcontext()
+    with Seams(fs=fs, extra=extra), fsy:
         try:
             if nsessions <= 1:
                 results.append(_one_extract(py7zr, sched, sink, outdir, fail_name))
@@ -360,6 +364,7 @@ def run_case(case):
             res["extra"]["context_switches"] = res["extra"].get("context_switches", 0) + sched.switches
             res["extra"]["scheduler_decisions"] = res["extra"].get("scheduler_decisions", 0) + len(sched.choices)
             res["extra"]["line_preemptions"] = res["extra"].get("line_preemptions", 0) + len(sched.line_yields)
+            res["extra"]["fs_call_yield_points"] = res["extra"].get("fs_call_yield_points", 0) + sum(1 for e in sched.events if isinstance(e[2], tuple) and e[2][0] == "fs")
             for v in res["violations"]:
                 if v.get("trace") is None and v["fp"].get("class", {}).get("variant") == "threads":
                     # the explicit schedule of the failing run: replaying these decisions needs no PRNG
